@@ -190,7 +190,8 @@ class Ctx:
         cmd += list(extra or [])
         cmd += [module + ".tla"]
         e = dict(os.environ)
-        jopts = "-Xss64m"
+        os.makedirs(os.path.join(d, "jt"), exist_ok=True)       # TLC's scratch directory: inside the work dir, not /tmp
+        jopts = "-Xss64m -Djava.io.tmpdir=" + os.path.join(d, "jt")
         if depth_first:
             jopts += " -Dtlc2.tool.queue.IStateQueue=StateDeque"
         e["JAVA_TOOL_OPTIONS"] = (e.get("JAVA_TOOL_OPTIONS", "") + " " + jopts).strip()
